@@ -1999,6 +1999,9 @@ class FileSet:
 
         if files is None:
             files = self.find(**find_args)
+        else:
+            # The user may give filenames instead of FileInfo objects:
+            files = (self._to_file_info(file) for file in files)
 
         worker_args = (
             (self, file, func, args, kwargs, pass_info, output,
@@ -2007,6 +2010,20 @@ class FileSet:
         )
 
         return pool_class, pool_args, worker_args
+
+    def _to_file_info(self, file):
+        """Convert a filename (or a bundle of filenames) to FileInfo objects
+
+        The per-file wrapper of :meth:`map` tells single files from bundles
+        by their type, a filename string must not be taken for a bundle.
+        """
+        if isinstance(file, FileInfo):
+            return file
+        if isinstance(file, (str, os.PathLike)):
+            return self.get_info(
+                FileInfo(os.fspath(file), fs=self.file_system)
+            )
+        return [self._to_file_info(member) for member in file]
 
     @staticmethod
     def _call_map_function(all_args):
